@@ -289,14 +289,15 @@ def bundle(kind, tier, seed):
         impl = os.path.join(bdir, 'impl.txt')
         rc, out, dt_h = sh('%s %s --tier %s --seed %d --out %s' % (exe, kind, tier, seed, impl), int(os.environ.get('FG_HARNESS_TIMEOUT', '600' if tier == 'quick' else '2400')), cwd=bdir)
         meta = {'kind': kind, 'tier': tier, 'seed': seed, 'harness_rc': rc, 'harness_out': out[-2000:], 'harness_s': round(dt_h, 1)}
-        if rc == 124:
+        if rc == 124 or rc < 0 or rc in (134, 139):
             try:
                 last = [ln for ln in open(impl, errors='replace').read().split('\n') if ln.strip()][-1]
                 if last.startswith('CASE '):
                     meta['hang_case'] = last
             except (OSError, IndexError):
                 pass
-            meta['error'] = 'the harness did not finish generating and running the cases within its time budget (a library call that never returns?)'
+            meta['error'] = ('the harness did not finish generating and running the cases within its time budget (a library call that never returns?)' if rc == 124
+                             else 'the harness process died (signal / abort, rc %d: stack overflow in a library call?) while running a case' % rc)
         elif rc == 4:
             meta['error'] = 'a generator family of the harness panicked while running the library to choose events (part of the cases is missing): ' + ' '.join(l for l in out.split('\n') if 'generator family' in l)[:300]
         elif rc not in (0, 3):
